@@ -144,7 +144,14 @@ def run_shard_main(pid, descfile, outfile):
                 from . import harness
                 n = harness.provoke_failures()
                 ctx.count("failing_calls_made_before_the_workload", n)
+            sent = None
+            if getattr(prop, "SENTINELS", False):
+                from . import harness
+                sent = harness.Sentinels()
+                sent.start()
             prop.run_shard(desc, ctx)
+            if sent is not None:
+                sent.finish(ctx)
     except BaseException:
         ctx.notes.append("shard crashed: " + traceback.format_exc()[-1500:])
         ctx.counters["shard_crashed"] = ctx.counters.get("shard_crashed", 0) + 1
